@@ -43,7 +43,7 @@ def gen_history(r, lag, short):
       # timestamps relative to the virtual epoch: some old (eligible), some young
       # (without a lag, a datapoint stamped now or in the future - a sender whose clock runs ahead - must drain like any other)
       base = r.choice([1000000 - 100, 1000000 - 100, 1000000 - 100, 1000000, 1000000 + 50]) if not lag else r.choice([1000000 - 100, 1000000 - 100, 1000000 + 5])
-      ops.append(('store', r.choice(metrics), base + r.randrange(4)))
+      ops.append(('store', r.choice(metrics), base + r.randrange(4) + (0.5 if r.random() < 0.1 else 0)))
   ndr = r.randint(2, 4) if short else r.randint(nm, 2 * nm + 2)
   return ops, ndr
 
